@@ -483,6 +483,52 @@ def gen_keep_window(nkeys, klen=200, vlen=10, every_bucket=4, pagesize=1024, pre
     return lines
 
 
+
+def gen_freelist_boundary(ns, pagesize=1024, prefix="flb", rounds=5):
+    """the persisted free list swept across a page boundary: a bucket of n entries (n / 4 pages at 200-byte values)
+    is committed and deleted, so that roughly n / 4 page ids are on the free list; then small commits, each of
+    which rewrites the free-list run (frees the old one, allocates the new one) — where a list of exactly
+    (pagesize - 32) / 8 ids, one more and one fewer changes the length of that run.  File decoded and checked
+    after every commit, and after a reopen."""
+    lines = []
+    for n in ns:
+        lines.append("hist %s-p%d-n%d" % (prefix, pagesize, n))
+        lines.append("cfg pagesize=%d numpages=32 strict=0 populate=0" % pagesize)
+        lines.append("open")
+        lines.append("begin 1 w")
+        lines.append("mkb 1 1 0 %s" % hx(b"big"))
+        for i in range(n):
+            lines.append("put 1 1 %s %s" % (hx(b"%08d" % i), vtok(b"\x07" * 200)))
+        lines.append("commit 1")
+        lines.append("file")
+        lines.append("dbcheck")
+        lines.append("begin 2 w")
+        lines.append("delb 2 0 %s" % hx(b"big"))
+        lines.append("commit 2")
+        lines.append("file")
+        lines.append("dbcheck")
+        t = 3
+        for rd in range(rounds):
+            lines.append("begin %d w" % t)
+            lines.append("gocb %d %d 0 %s" % (t, 10 + rd, hx(b"small")))
+            lines.append("put %d %d %s %s" % (t, 10 + rd, hx(b"r%04d" % rd), vtok(b"\x01" * 300)))
+            lines.append("commit %d" % t)
+            lines.append("file")
+            lines.append("dbcheck")
+            t += 1
+        lines.append("reopen")
+        lines.append("begin %d w" % t)
+        lines.append("gocb %d 40 0 %s" % (t, hx(b"small")))
+        lines.append("put %d 40 %s %s" % (t, hx(b"k"), hx(b"v")))
+        lines.append("commit %d" % t)
+        lines.append("file")
+        lines.append("dbcheck")
+        lines.append("begin %d r" % (t + 1))
+        lines.append("dump %d" % (t + 1))
+        lines.append("drop %d" % (t + 1))
+        lines.append("close")
+    return lines
+
 def probe_keys(keys, r, limit=None):
     """present keys, gaps next to them, below the minimum, above the maximum"""
     ks = sorted(keys)
